@@ -105,6 +105,17 @@ def check_C12(rep, prog, tier):
                            R.make_only(prog), dl, 'C12', _judge_only)
 
 
+def stitch_conformance(rep, samples, inconclusive, limit=6):
+    """Explored listings re-run natively on an archive written directly in the documented format must give the same listing."""
+    for smp in [x for x in samples if x.get('scenario') and x.get('listing') is not None][:limit]:
+        out, path = runner.replay({'kind': 'stitch', 'scenario': smp['scenario']}, rep.prop + '_conformance')
+        want = [x for x in smp['listing'] if not isinstance(x, str)]
+        if out.get('listing') != want:
+            inconclusive.append('model/implementation disagreement: native listing %s, model %s (%s)' % (out.get('listing'), want, path))
+        else:
+            rep.diff_vectors += 1
+
+
 def subtree_listing(rep, prog, tier, dl):
     """Stitch::next with a subtree filter over two-level symbolic paths (C12 clause 2, also C08's filter clause)."""
     from .harness import stitch as S
@@ -122,6 +133,8 @@ def subtree_listing(rep, prog, tier, dl):
     rep.functions |= tot['functions']
     rep.models |= tot['models']
     rep.samples += tot['samples'][:2]
+    if not tot['bad'] and not tot['inconclusive']:
+        stitch_conformance(rep, tot['samples'], tot['inconclusive'], 3)
     st = dict(paths=tot['paths'], queries=tot['queries'], solver_s=round(tot['solver_s'], 2), nontrivial=tot.get('nontrivial', 0), shapes=tot['shapes_done'])
     name = 'listing a subtree of a stitched version == entries under the subtree by whole components'
     for b in tot['bad'][:1]:
@@ -159,6 +172,8 @@ def check_C08(rep, prog, tier):
     rep.functions |= tot['functions']
     rep.models |= tot['models']
     rep.samples += tot['samples']
+    if not tot['bad'] and not tot['inconclusive']:
+        stitch_conformance(rep, tot['samples'], tot['inconclusive'], 4)
     st = dict(paths=tot['paths'], queries=tot['queries'], solver_s=round(tot['solver_s'], 2), nontrivial=tot.get('nontrivial', 0), shapes=tot['shapes_done'])
     name = 'Stitch::next listing == stitching rule, strictly ordered, terminates (%d bands)' % nb
     seen = set()
@@ -240,6 +255,23 @@ def check_C05(rep, prog, tier):
                 (out.get('result') == b.get('result') or str(out.get('result', '')).startswith('Err') == str(b.get('result')).startswith('Err'))
             what_ = 'delete_bands(%s, dry_run=%s) on %s with %s: %s' % (b['delete'], b['dry_run'], json.dumps(b['spec']), sc.get('fired'), '; '.join(b['problems']))
         rep.violation(key, what_, path_, reproduced)
+    if not tot['bad'] and not tot['inconclusive']:
+        # conformance: explored fault-free paths re-run natively must issue the same storage operations and end the same way
+        from .backup_checks import normalize_trace
+        for smp in [x for x in tot['samples'] if x.get('mode') == 'none' and x.get('log')][:4]:
+            sc = {'kind': 'gc', 'spec': smp['spec'], 'delete': smp['delete'], 'dry_run': smp['dry_run'], 'break_lock': smp.get('break_lock', False),
+                  'concrete': smp.get('concrete')}
+            out, path_ = runner.replay(sc, 'C05_conformance')
+            model_ops = normalize_trace([(v, p) for (i, v, p) in smp['log']])
+            native_ops = normalize_trace([(o[0], o[1]) for o in out.get('ops', [])])
+            # deletion order of blocks follows hash order, which differs between model names and real hashes: compare as multisets there
+            canon = lambda ops: [o for o in ops if o[0] not in ('remove_file', 'metadata') or not o[1].startswith('d/')] + \
+                sorted(o[0] for o in ops if o[0] in ('remove_file', 'metadata') and o[1].startswith('d/'))
+            if out.get('result') != smp.get('result') or canon(model_ops) != canon(native_ops):
+                tot['inconclusive'].append('model/implementation disagreement on %s delete %s: native %s %s, model %s %s (%s)' % (
+                    json.dumps(smp['spec']), smp['delete'], out.get('result'), canon(native_ops)[-6:], smp.get('result'), canon(model_ops)[-6:], path_))
+            else:
+                rep.diff_vectors += 1
     if tot['inconclusive']:
         rep.inconclusive += ['gc: ' + x for x in tot['inconclusive'][:5]]
         rep.add_obligation(name, 'inconclusive', st, tot['inconclusive'][:3])
@@ -541,6 +573,7 @@ def check_C18(rep, prog, tier):
                         'directories and symlinks are not reported by the backup callback (the property speaks of files)']
     tot = dict(paths=0, queries=0, solver_s=0.0)
     bads, inconc = [], []
+    conf_n = [0]
     for which, plist in (('diff', pats), ('diff+unchanged', pats[:3]), ('backup-callback', cb_pats)):
         for pat in plist:
             mk = D.make_cb(prog, pat) if which == 'backup-callback' else D.make(prog, pat, which == 'diff+unchanged')
@@ -556,7 +589,24 @@ def check_C18(rep, prog, tier):
             bads += res['bad']
             inconc += ['%s %s: %s' % (which, pat, x) for x in inc[:2]]
             if res['samples'] and len(rep.samples) < 4:
-                rep.samples += res['samples'][:1]
+                rep.samples += [{k: v for k, v in res['samples'][0].items() if k != 'model'}]
+            if res['samples'] and not res['bad'] and not inc and conf_n[0] < 6 and res['samples'][0].get('model') is not None:
+                # conformance: the same stored/live pair built natively must be classified the same way by the real code
+                conf_n[0] += 1
+                smp = dict(res['samples'][0])
+                smp['which'] = which
+                sc = diff_scenario(smp)
+                out, path = runner.replay(sc, 'C18_conformance')
+                sig = {'Unchanged': '.', 'Added': '+', 'Deleted': '-', 'Changed': '*'}
+                want = [[p_, sig[k]] for p_, k in (smp.get('backup_changes') if which == 'backup-callback' else smp.get('diff'))]
+                got_native = out.get('backup_changes') if which == 'backup-callback' else out.get('diff')
+                if which == 'backup-callback' and got_native is not None:
+                    livekinds = {p_: k[1] for p_, k in smp['kinds'].items()}
+                    got_native = [g for g in got_native if g[1] == '-' or livekinds.get(g[0]) == 'File']
+                if got_native != want:
+                    inconc.append('model/implementation disagreement on %s %s: native %s, model %s (%s)' % (which, pat, got_native, want, path))
+                else:
+                    rep.diff_vectors += 1
     # nested names with bytes below '/': the two streams must stay aligned whatever is added or removed
     nested_cases = [(['/conf/sub/x'], []), ([], ['/conf.d/y']), (['/src/m'], ['/src-old/n']), (['/conf/sub', '/conf/sub/x'], [])]
     if tier != 'quick':
@@ -650,6 +700,18 @@ def run_restore_obligation(rep, prog, name, mk, dl, prop, judge):
     rep.models |= mods
     if res.get('samples') and len(rep.samples) < 4:
         rep.samples += res['samples'][:1]
+    if not res['bad'] and not inc:
+        # conformance: an explored restore re-run natively into a sandbox must end the same way and leave the outside alone
+        for smp in [x for x in res.get('samples', []) if x.get('scenario')][:2]:
+            sc = dict(smp['scenario'])
+            sc['kind'] = 'restore_raw'
+            out, path = runner.replay(sc, prop + '_conformance')
+            native_ok = str(out.get('result', '')).startswith('Ok')
+            if out.get('panic') or native_ok != (smp.get('result') == 'Ok') or bool(out.get('errors')) != bool(smp.get('errors')) or out.get('outside_changed'):
+                inc = list(inc) + ['model/implementation disagreement: native %s errors=%s outside_changed=%s, model %s errors=%s (%s)' % (
+                    out.get('result'), len(out.get('errors') or []), out.get('outside_changed'), smp.get('result'), smp.get('errors'), path)]
+            else:
+                rep.diff_vectors += 1
     stats = _stats(st)
     seen = set()
     for b in res['bad']:
@@ -1003,12 +1065,28 @@ def check_C02(rep, prog, tier):
         'arbitrary histories are covered as an inductive step, not as a search: an operation preserves every other completed version if it never changes an existing file (C07), records only correct entries (C03/C04/C13), removes only unreferenced blocks (C05) and lists by the stitching rule (C08); one concrete bounded history is explored in addition',
         'the property\'s premise is assumed: a content change comes with a new mtime or a new size']
 
+    conf_n = [0]
+
     def run(name, mk, judge=None):
         res, st, fns, mods, inc = parallel_explore(prog, mk, deadline=dl, max_paths=200000, step_budget=900000)
         rep.functions |= fns
         rep.models |= mods
         if res.get('samples') and len(rep.samples) < 4:
             rep.samples += res['samples'][:1]
+        if res.get('samples') and not res['bad'] and not inc and 'ids' in res['samples'][0] and conf_n[0] < 8:
+            # conformance: the same band set written natively must be resolved the same way by the real code
+            conf_n[0] += 1
+            smp = res['samples'][0]
+            sc, _jf = sel_judge(smp)
+            out, path = runner.replay(sc, 'C02_conformance')
+            nm = lambda i: 'b%04d' % i
+            closed_ids = [i for i in smp['ids'] if smp['closed'].get(i)]
+            want_lc = nm(max(closed_ids)) if closed_ids else None
+            if out.get('Latest') != nm(max(smp['ids'])) or (want_lc is not None and out.get('LatestClosed') != want_lc) or \
+                    (want_lc is None and not str(out.get('LatestClosed', '')).startswith('Err')):
+                inc = list(inc) + ['model/implementation disagreement on band set %s: native %s (%s)' % (smp, out, path)]
+            else:
+                rep.diff_vectors += 1
         stats = _stats(st)
         seen = set()
         for b in res['bad']:
@@ -1083,6 +1161,8 @@ def check_C06(rep, prog, tier):
               'mirsym': {'key': b['key'], 'results': b['results'], 'schedule': [(a, v, p[-20:]) for a, v, p in b['schedule']]}}
         out, path = runner.replay(sc, 'C06_race')
         reproduced = any(v.get('restore_errors') or not v.get('restore_ok') for v in out.get('versions') or [])
+        if reproduced:
+            rep.diff_vectors += 1       # a schedule found by the solver, re-run natively with both operations parked at the interceptor
         rep.violation(b['key'], 'both operations finish (%s) and %s' % (b['results'], '; '.join(b['problems'][:2])), path, reproduced)
     if inc:
         rep.inconclusive += ['race: ' + x for x in inc[:4]]
